@@ -375,7 +375,7 @@ def check_name_ranges(P, R):
 
 def check(P, R, tier):
     import fmtdecode
-    nf = fmtdecode.run_parallel(R, P, "RF2-fmt", every=(tier == "thorough"), jobs=14, parse=True, reprs=False)
+    nf = fmtdecode.run_parallel(R, P, "RF2-fmt", every=(tier == "thorough"), jobs=14, parse=True, reprs=True)
     R.floor("RF2-fmt", "printed and re-parsed texts", nf, 30000)
     check_name_ranges(P, R)
     check_roman(P, R)
